@@ -114,7 +114,24 @@ def remove_at(I, args, kw):
     return I.new_alist(listops.RemoveAt(I, L.term, i))
 
 
+def subset(I, args, kw):
+    A, B = args
+    ia, ib = I.try_iter_concrete(A), I.try_iter_concrete(B)
+    if ia is not None and ib is not None:
+        acc = []
+        for a in ia:
+            acc.append(z3.Or([I.elem_eq(a, b) for b in ib]) if ib else z3.BoolVal(False))
+        return bm.simp_bool(z3.And(acc)) if acc else True
+    ta = A.term if isinstance(A, AList) else bm.as_term(I, A)
+    tb = B.term if isinstance(B, AList) else bm.as_term(I, B)
+    # a proof-only primitive: True when the inclusion is provable now, otherwise unsupported (never assumed)
+    if listops.subset_of(I, ta, tb):
+        return True
+    raise Unsupported("subset(): inclusion not provable")
+
+
 INTRINSICS = {
+    "spec.prims.subset": subset,
     "spec.prims.first_index": first_index,
     "spec.prims.remove_at": remove_at,
     "spec.prims.forall": forall,
